@@ -343,6 +343,71 @@ pub fn c13_soc5_update_scaling_sparse_p19() {
     soc_update_scaling::<19, 5>(true);
 }
 
+/// set_identity_scaling leaves NOTHING of an earlier scaling point behind: from ARBITRARY contents of w, eta and
+/// the sparse expansion (d, u, v) the cone is reset so that the expansion eta^2 (D + uu' - vv') written into the
+/// KKT matrix is again the operator mul_Hs - the identity (this is the state the solver starts every solve
+/// from, also a second solve on the same object)
+fn soc_identity_scaling<const P: u16, const D: usize>() {
+    let mut c = SecondOrderCone::<Fp<P>>::new(D);
+    // arbitrary leftovers
+    c.η = Fp::<P>::any();
+    let mut i = 0;
+    while i < D {
+        c.w[i] = Fp::<P>::any();
+        i += 1;
+    }
+    if let Some(sd) = c.sparse_data.as_mut() {
+        sd.d = Fp::<P>::any();
+        let mut i = 0;
+        while i < D {
+            sd.u[i] = Fp::<P>::any();
+            sd.v[i] = Fp::<P>::any();
+            i += 1;
+        }
+    }
+    c.set_identity_scaling();
+    let x: [Fp<P>; D] = anyv();
+    let mut work = [Fp::<P>::zero(); D];
+    let mut hx = [Fp::<P>::zero(); D];
+    c.mul_Hs(&mut hx, &x, &mut work);
+    let mut i = 0;
+    while i < D {
+        assert!(hx[i] == x[i], "identity_scaling_operator_is_the_identity");
+        i += 1;
+    }
+    if let Some(sd) = c.sparse_data.as_ref() {
+        let e2 = c.η * c.η;
+        let mut dblk = [Fp::<P>::zero(); D];
+        c.get_Hs(&mut dblk);
+        let mut ux = Fp::<P>::zero();
+        let mut vx = Fp::<P>::zero();
+        let mut i = 0;
+        while i < D {
+            ux = ux + sd.u[i] * x[i];
+            vx = vx + sd.v[i] * x[i];
+            i += 1;
+        }
+        let mut i = 0;
+        while i < D {
+            let want = dblk[i] * x[i] + e2 * (sd.u[i] * ux - sd.v[i] * vx);
+            assert!(want == hx[i], "sparse_expansion_at_identity_scaling_is_the_operator_mul_Hs");
+            i += 1;
+        }
+    }
+    kani::cover!(x[0].0 == 3 && x[D - 1].0 == 2, "generic vector");
+}
+
+#[kani::proof]
+#[kani::unwind(7)]
+pub fn c13_soc5_identity_scaling_resets_expansion() {
+    soc_identity_scaling::<17, 5>();
+}
+#[kani::proof]
+#[kani::unwind(5)]
+pub fn c13_soc3_identity_scaling() {
+    soc_identity_scaling::<17, 3>();
+}
+
 /// Jordan algebra: circ_op is the arrow product, inv_circ_op inverts it; affine_ds = lambda o lambda;
 /// the combined shift is W^-1 ds o W dz - sigma mu e
 #[kani::proof]
